@@ -82,7 +82,9 @@ FilesExc == [
 ]
 
 FilesDef == [
-  dinc  |-> [dir |-> "include", lines |-> << SEntry(<<W("b"), PRef("p")>>), SEntry(<<PRef("q")>>) >>]
+  dinc  |-> [dir |-> "include", lines |-> << SEntry(<<W("b"), PRef("p")>>), SEntry(<<PRef("q")>>) >>],
+  \* an include file with a definition of its own, under a name the including file may define as well
+  ddef  |-> [dir |-> "include", lines |-> << SDefine("p", <<W("b")>>), SEntry(<<PRef("p"), W("a")>>) >>]
 ]
 
 Files == CASE Family = "inc" -> FilesIncAll [] Family = "exc" -> FilesExc [] Family = "def" -> FilesDef
@@ -135,7 +137,7 @@ VocDef == << SDefine("p", <<W("a")>>), SDefine("q", <<PRef("p"), Aplus>>), SDefi
              SEntry(<<PRef("p")>>), SEntry(<<W("b"), PRef("q")>>), SEntry(<<PRef("r")>>), SEntry(<<PRef("s"), PRef("p")>>),
              SEntry(<<PRef("u"), W("a")>>), E("b"),
              SPrefix(<<PRef("p")>>), SSuffix(<<PRef("s")>>), IncOf("dinc"),
-             SPrefix(<<PRef("q")>>),                              \* a NESTED definition used by a prefix line
+             SPrefix(<<PRef("q")>>), IncOf("ddef"),                              \* a NESTED definition used by a prefix line
              LStart("assemble", ""), LEnd, LConcat >>
 
 Voc0 == CASE Family = "inc" -> VocInc [] Family = "exc" -> VocExc [] Family = "def" -> VocDef
